@@ -2,8 +2,8 @@
 //! model. Nothing in here draws from the PRNG or reads a clock.
 
 use simcore::lay::{tup_head, tup_tail, Ops};
-use simcore::seams::{ev, InputMode, Log, RlMode, SimInput, SimOutput};
-use simcore::serde_tok::{Pres, SerdeFault, Tok, PRESENTATIONS, SERDE_FAULTS};
+use simcore::seams::{ev, InputMode, Log, Nest, RlMode, SimInput, SimOutput};
+use simcore::serde_tok::{SerdeFault, Tok, PRESENTATIONS, SERDE_FAULTS};
 use simcore::trace::{Fault, Reader, Record, SerdeOp, Shape, Trace, Writer};
 use std::panic::{catch_unwind, AssertUnwindSafe};
 use std::sync::atomic::{AtomicBool, AtomicU8, Ordering};
@@ -34,7 +34,7 @@ pub struct Violation {
     pub detail: String,
 }
 
-pub const CHECK_IDS: [&str; 22] = ["E0", "E1", "E2", "E3", "A1", "D1", "D2", "D3", "D4", "D5", "D6", "B1", "M1", "S1", "S2", "S3", "S4", "U1", "D7", "S5", "L1", "D8"];
+pub const CHECK_IDS: [&str; 23] = ["E0", "E1", "E2", "E3", "A1", "D1", "D2", "D3", "D4", "D5", "D6", "B1", "M1", "S1", "S2", "S3", "S4", "U1", "D7", "S5", "L1", "D8", "R1"];
 
 fn check_no(id: &str) -> u64 {
     CHECK_IDS.iter().position(|c| *c == id).unwrap_or(99) as u64
@@ -140,6 +140,49 @@ pub fn model_bytes(r: &Record, wb: usize) -> (Vec<u8>, Vec<(usize, usize, usize)
     (b, spans)
 }
 
+// ------------------------------------------------------------------ the interleaved second task (R1)
+
+/// The second task of a history with `input.nest`: a complete encode (three entry points) and decode
+/// (plain, in-place through an array, and one cut short) of another value, run while the first
+/// operation is suspended inside a seam call. Judged against the model on the spot; `Some(description)`
+/// if the second task itself went wrong. What it may have done to the *first* task is judged by the
+/// ordinary oracles when that one resumes.
+pub fn nested_task(table: &[Ops], n: &Nest) -> Option<String> {
+    let ops = table.get(n.lay as usize)?;
+    let wb = ops.wb();
+    let bits = n.bits & ops.mask();
+    let model: Vec<u8> = le_bytes(bits, wb).collect();
+    let r = catch_unwind(AssertUnwindSafe(|| -> Option<String> {
+        for writer in [Writer::EncodeTo, Writer::UsingEncoded, Writer::Encode] {
+            let mut log = Log::new(false);
+            let mut out = SimOutput::new(Vec::new(), &mut log);
+            if let Err(m) = (ops.enc)(&[bits], &[], Shape::Bare, writer, &mut out) {
+                return Some(format!("encoding {} {:#x} via {:?} failed: {}", ops.name, bits, writer, m));
+            }
+            if out.buf != model {
+                return Some(format!("{} {:#x} via {:?} wrote {:02x?}, model says {:02x?}", ops.name, bits, writer, out.buf, model));
+            }
+        }
+        for reader in [Reader::Decode, Reader::ViaArray1] {
+            let mut inp = SimInput::new(&model, 0, None, InputMode::plain(), false);
+            match (ops.dec)(Shape::Bare, reader, &mut inp) {
+                Ok(Some(v)) if v == vec![bits] && inp.pos == wb => {}
+                other => return Some(format!("{} via {:?} decoded {:02x?} to {:x?} (position {}), model says {:#x}", ops.name, reader, model, other.map_err(|e| e.to_string()), inp.pos, bits)),
+            }
+        }
+        // a decode that is cut short, in between: must fail, and must not poison what follows
+        let mut inp = SimInput::new(&model[..wb - 1], 0, None, InputMode::plain(), false);
+        if let Ok(v) = (ops.dec)(Shape::Bare, Reader::Decode, &mut inp) {
+            return Some(format!("{} decoded {} of {} bytes to {:x?}", ops.name, wb - 1, wb, v));
+        }
+        None
+    }));
+    match r {
+        Ok(x) => x,
+        Err(p) => Some(format!("the second task ({} {:#x}) unwound: {}", ops.name, bits, panic_msg(p))),
+    }
+}
+
 // ------------------------------------------------------------------ write phase
 
 pub struct Written {
@@ -150,6 +193,8 @@ pub struct Written {
     pub steps: u64,
     pub events: Option<Vec<(u8, u64, u64)>>,
     pub ok: [u32; 24],
+    /// second tasks run inside an Output call
+    pub nest_fired: u32,
 }
 
 fn panic_msg(p: Box<dyn std::any::Any + Send>) -> String {
@@ -211,14 +256,29 @@ pub fn write_phase(table: &[Ops], t: &Trace, record: bool) -> Result<Written, Vi
     let mut log = Log::new(record);
     let mut medium: Vec<u8> = Vec::new();
     let mut spans = Vec::new();
+    let mut nest_total = 0u32;
     for (i, r) in t.records.iter().enumerate() {
         let ops = &table[r.w_lay as usize];
         let wb = ops.wb();
         let start = medium.len();
-        let mut out = SimOutput { buf: std::mem::take(&mut medium), log: &mut log };
+        let hook = || t.input.nest.as_ref().and_then(|n| nested_task(table, n));
+        let mut out = SimOutput::new(std::mem::take(&mut medium), &mut log);
+        if let Some(n) = t.input.nest.as_ref() {
+            out.nest = Some((n.at, n.after, &hook));
+        }
         let res = catch_unwind(AssertUnwindSafe(|| (ops.enc)(&r.vals, &r.splits, r.shape, r.writer, &mut out)));
         medium = std::mem::take(&mut out.buf);
+        let nest_fail = out.nest_fail.take();
+        let nest_fired = out.nest_fired;
         drop(out);
+        if let Some(m) = nest_fail {
+            log.ev(ev::CHECK_FAIL, check_no("R1"), i as u64);
+            return Err(viol("R1", i, &f0, format!("while {} {:?} was being written via {:?} (suspended in an Output call), a second task ran and went wrong: {}", ops.name, r.shape, r.writer, m)));
+        }
+        if nest_fired > 0 {
+            nest_total += nest_fired;
+            log.ev(ev::CHECK_OK, check_no("R1"), i as u64);
+        }
         match res {
             Err(p) => {
                 log.ev(ev::PANIC, i as u64, 0);
@@ -241,7 +301,7 @@ pub fn write_phase(table: &[Ops], t: &Trace, record: bool) -> Result<Written, Vi
         }
         // E3: identical to the underlying integer's encoding of the same shape
         let mut tlog = Log::new(false);
-        let mut tout = SimOutput { buf: Vec::new(), log: &mut tlog };
+        let mut tout = SimOutput::new(Vec::new(), &mut tlog);
         let tw = if r.writer.container_ok() { r.writer } else { Writer::EncodeTo };
         let tres = catch_unwind(AssertUnwindSafe(|| (ops.enc_twin)(&r.vals, &r.splits, r.shape, tw, &mut tout)));
         let tbytes = std::mem::take(&mut tout.buf);
@@ -348,7 +408,7 @@ pub fn write_phase(table: &[Ops], t: &Trace, record: bool) -> Result<Written, Vi
             serde_op(table, o, k, &mut log)?;
         }
     }
-    Ok(Written { medium, spans, digest: log.digest.finish(), steps: log.steps, ok: log.ok, events: log.record })
+    Ok(Written { medium, spans, digest: log.digest.finish(), steps: log.steps, ok: log.ok, events: log.record, nest_fired: nest_total })
 }
 
 // ------------------------------------------------------------------ serde seam
@@ -375,40 +435,40 @@ fn serde_op(table: &[Ops], o: &SerdeOp, k: usize, log: &mut Log) -> Result<(), V
         }
     }
     log.ev(ev::CHECK_OK, check_no("S1"), k as u64);
-    // S2 / S3: every presentation x every stream fault
+    // S2 / S3: every presentation x every stream fault x (fresh value | deserialize_in_place into a used slot)
     for pres in PRESENTATIONS {
         for fault in SERDE_FAULTS {
-            if fault == SerdeFault::ValueError && matches!(pres, Pres::Seq | Pres::SeqWidened) {
+            if fault == SerdeFault::ValueError && pres.is_seq() {
                 continue; // same as AccessError for sequences
             }
-          for hr in [true, false] {
-            let r = catch_unwind(|| (s.de)(bits, o.wrapping, pres, fault, hr));
-            log.ev(ev::REC_READ, (pres as u64) << 8 | fault as u64, k as u64);
-            match r {
-                Err(p) => {
-                    let id = if fault == SerdeFault::None { "S2" } else { "S3" };
-                    return Err(viol(id, k, &f0, format!("{}: deserialize ({:?}, {:?}) unwound: {}", l.name, pres, fault, un(p))));
-                }
-                Ok((res, asked)) => {
-                    match &asked {
-                        Some((name, fields)) if name == l.struct_name && fields.len() == 1 && fields[0] == "bits" => {}
-                        other => {
-                            log.ev(ev::CHECK_FAIL, check_no("S2"), k as u64);
-                            return Err(viol("S2", k, &f0, format!("{}: deserialize asked the format for {:?}, want struct {} with fields [bits]", l.name, other, l.struct_name)));
-                        }
+            for (hr, in_place) in [(true, false), (false, false), (true, true)] {
+                let r = catch_unwind(|| (s.de)(bits, o.wrapping, pres, fault, hr, in_place));
+                log.ev(ev::REC_READ, (in_place as u64) << 16 | (pres as u64) << 8 | fault as u64, k as u64);
+                match r {
+                    Err(p) => {
+                        let id = if fault == SerdeFault::None { "S2" } else { "S3" };
+                        return Err(viol(id, k, &f0, format!("{}: deserialize ({:?}, {:?}, in_place={}) unwound: {}", l.name, pres, fault, in_place, un(p))));
                     }
-                    if fault == SerdeFault::None {
-                        if res != Ok(bits) {
-                            log.ev(ev::CHECK_FAIL, check_no("S2"), k as u64);
-                            return Err(viol("S2", k, &f0, format!("{} (wrapping={}): presented {:#x} as {:?}, deserialised to {:?}", l.name, o.wrapping, bits, pres, res)));
+                    Ok((res, asked)) => {
+                        match &asked {
+                            Some((name, fields)) if name == l.struct_name && fields.len() == 1 && fields[0] == "bits" => {}
+                            other => {
+                                log.ev(ev::CHECK_FAIL, check_no("S2"), k as u64);
+                                return Err(viol("S2", k, &f0, format!("{}: deserialize asked the format for {:?}, want struct {} with fields [bits]", l.name, other, l.struct_name)));
+                            }
                         }
-                    } else if res.is_ok() {
-                        log.ev(ev::CHECK_FAIL, check_no("S3"), k as u64);
-                        return Err(viol("S3", k, &f0, format!("{}: stream fault {:?} under {:?} still produced {:?}", l.name, fault, pres, res)));
+                        if fault == SerdeFault::None {
+                            if res != Ok(bits) {
+                                log.ev(ev::CHECK_FAIL, check_no("S2"), k as u64);
+                                return Err(viol("S2", k, &f0, format!("{} (wrapping={}, in_place={}): presented {:#x} as {:?}, deserialised to {:?}", l.name, o.wrapping, in_place, bits, pres, res)));
+                            }
+                        } else if res.is_ok() {
+                            log.ev(ev::CHECK_FAIL, check_no("S3"), k as u64);
+                            return Err(viol("S3", k, &f0, format!("{}: stream fault {:?} under {:?} (in_place={}) still produced {:?}", l.name, fault, pres, in_place, res)));
+                        }
                     }
                 }
             }
-          }
         }
     }
     log.ev(ev::CHECK_OK, check_no("S2"), k as u64);
@@ -527,6 +587,75 @@ fn serde_op(table: &[Ops], o: &SerdeOp, k: usize, log: &mut Log) -> Result<(), V
         }
         log.ev(ev::CHECK_OK, check_no("S5"), k as u64);
     }
+    // S4, documents with several values (a list, an optional, a value behind an untagged enum, a plain
+    // field after them, a foreign field) in both real formats: same text / bytes as the integer twin,
+    // and for the full document and every strict prefix the same values or the same refusal. The serde
+    // analogue of a multi-record stream: a value that takes more or less of the stream than it should
+    // shifts what follows.
+    {
+        let m = l.mask();
+        let vals: [u128; 4] = [bits, !bits & m, bits.rotate_left(9) & m, (bits >> 1) & m];
+        match catch_unwind(|| (s.doc_json)(&vals, o.wrapping)) {
+            Err(p) => return Err(viol("S4", k, &f0, format!("{}: serde_json serialisation of a document unwound: {}", l.name, un(p)))),
+            Ok((a, b)) => {
+                if a != b {
+                    log.ev(ev::CHECK_FAIL, check_no("S4"), k as u64);
+                    return Err(viol("S4", k, &f0, format!("{}: JSON document {:?}, with integer fields {:?}", l.name, a, b)));
+                }
+                if let Ok(text) = a {
+                    // every prefix is too many for long documents; all cuts near a value and a stride elsewhere
+                    for cut in 0..=text.len() {
+                        if !text.is_char_boundary(cut) || (cut < text.len() && text.len() > 160 && cut % 3 != (bits as usize) % 3) {
+                            continue;
+                        }
+                        let part = &text[..cut];
+                        match catch_unwind(|| (s.doc_unjson)(part, o.wrapping)) {
+                            Err(p) => return Err(viol("S4", k, &f0, format!("{}: serde_json parse of document {:?} unwound: {}", l.name, part, un(p)))),
+                            Ok((x, y)) => {
+                                let same = match (&x, &y) {
+                                    (Ok(a), Ok(b)) => a == b,
+                                    (Err(_), Err(_)) => true,
+                                    _ => false,
+                                };
+                                if !same {
+                                    log.ev(ev::CHECK_FAIL, check_no("S4"), k as u64);
+                                    return Err(viol("S4", k, &f0, format!("{}: JSON document {:?} parsed to {:x?}, with integer fields to {:x?}", l.name, part, x, y)));
+                                }
+                            }
+                        }
+                    }
+                }
+            }
+        }
+        match catch_unwind(|| (s.doc_cbor)(&vals, o.wrapping)) {
+            Err(p) => return Err(viol("S4", k, &f0, format!("{}: serde_cbor serialisation of a document unwound: {}", l.name, un(p)))),
+            Ok((a, b)) => {
+                if a != b {
+                    log.ev(ev::CHECK_FAIL, check_no("S4"), k as u64);
+                    return Err(viol("S4", k, &f0, format!("{}: CBOR document {:02x?}, with integer fields {:02x?}", l.name, a, b)));
+                }
+                if let Ok(bytes) = a {
+                    for cut in 0..=bytes.len() {
+                        let part = &bytes[..cut];
+                        match catch_unwind(|| (s.doc_uncbor)(part, o.wrapping)) {
+                            Err(p) => return Err(viol("S4", k, &f0, format!("{}: serde_cbor parse of document {:02x?} unwound: {}", l.name, part, un(p)))),
+                            Ok((x, y)) => {
+                                let same = match (&x, &y) {
+                                    (Ok(a), Ok(b)) => a == b,
+                                    (Err(_), Err(_)) => true,
+                                    _ => false,
+                                };
+                                if !same {
+                                    log.ev(ev::CHECK_FAIL, check_no("S4"), k as u64);
+                                    return Err(viol("S4", k, &f0, format!("{}: CBOR document {:02x?} parsed to {:x?}, with integer fields to {:x?}", l.name, part, x, y)));
+                                }
+                            }
+                        }
+                    }
+                }
+            }
+        }
+    }
     let cb = catch_unwind(|| ((s.cbor)(bits, o.wrapping), (s.cbor_twin)(bits)));
     match cb {
         Err(p) => return Err(viol("S4", k, &f0, format!("{}: serde_cbor serialisation unwound: {}", l.name, un(p)))),
@@ -574,6 +703,8 @@ pub struct PassStats {
     pub records_read: u32,
     /// decodes that failed only because the input answered Err to remaining_len() (tolerated)
     pub rl_err_propagated: u32,
+    /// second tasks run inside a seam call of a decode
+    pub nest_fired: u32,
 }
 
 pub struct PassOut {
@@ -631,7 +762,11 @@ pub fn materialise(medium: &[u8], fault: &Fault) -> (Vec<u8>, Option<usize>) {
 
 pub fn read_pass(table: &[Ops], t: &Trace, w: &Written, fault: &Fault, record: bool) -> PassOut {
     let (data, err_from) = materialise(&w.medium, fault);
+    let hook = || t.input.nest.as_ref().and_then(|n| nested_task(table, n));
     let mut inp = SimInput::new(&data, 0, err_from, t.input.clone(), record);
+    if t.input.nest.is_some() {
+        inp.hook = Some(&hook);
+    }
     inp.log.ev(ev::PASS_BEGIN, fault.kind() as u64, match fault {
         Fault::TruncateAt(x) | Fault::IoErrorAt(x) | Fault::BitFlip(x) => *x as u64,
         Fault::Trailing(b) => b.len() as u64,
@@ -716,8 +851,20 @@ pub fn read_pass(table: &[Ops], t: &Trace, w: &Written, fault: &Fault, record: b
         let depth_before = inp.depth;
         let alloc_before = inp.alloc_bytes;
         inp.rl_err_returned = false;
+        inp.calls = 0;
+        let fired_before = inp.nest_fired;
         let out = run_reader(rops.dec, r.shape, reader, &mut inp);
         stats.records_read += 1;
+        if let Some(m) = inp.nest_fail.take() {
+            // R1: the second task, run while this decode was suspended inside Input::read, went wrong
+            violation = Some(viol("R1", i, fault, format!("while record {} ({} {:?} via {:?}) was being read (suspended in an Input call), a second task ran and went wrong: {}", i, rops.name, r.shape, reader, m)));
+            inp.log.ev(ev::REC_READ, i as u64, (out.class() << 32) | inp.pos as u64);
+            break;
+        }
+        if inp.nest_fired > fired_before {
+            stats.nest_fired += inp.nest_fired - fired_before;
+            inp.log.ev(ev::CHECK_OK, check_no("R1"), i as u64);
+        }
         inp.log.ev(ev::REC_READ, i as u64, (out.class() << 32) | inp.pos as u64);
         if let Outcome::Panic(_) = &out {
             inp.log.ev(ev::PANIC, i as u64, 0);
